@@ -21,7 +21,9 @@
 //                             connected emitter / a default constructed one / one taken from a moved-from signal /
 //                             itself / the emitter of listener <k>;  mv = the (defaulted) move assignment
 //   connect0 <n>              connect() on a moved-from signal object (no state): the callback is released at once
-//   connect <n>               connect a callback that returns true n times, then false
+//   connect <n>               connect a callback that returns true n times, then false (passed as a temporary)
+//   connectl <n>              the same, passed as an lvalue functor which the caller destroys as soon as connect() has
+//                             returned; a call on a destroyed functor instance is reported as C<id>:deadcall
 //   emit <flavour> <v> [hold] collector call from a normal thread; flavour val|rv|lv|conv; without `hold` the
 //                             returned suspend point is discarded (= flushed at once); with `hold` it is kept
 //   flush                     flush (destroy) the oldest held suspend point
@@ -43,6 +45,7 @@
 #include <thread>
 #include <variant>
 #include <optional>
+#include <set>
 
 using namespace cocls;
 
@@ -141,25 +144,52 @@ struct cb_shared {
     int left;      // remaining `true` answers
     int live = 0;
 };
+// registry of the functor instances that exist (by address): a call on an instance that has been destroyed is
+// recognised from the address alone, without touching the dead object, and reported as `C<id>:deadcall`
+struct fn_registry {
+    std::mutex mx;
+    std::set<const void *> live;
+    std::map<const void *, std::pair<Ctx *, int>> ever;
+    void add(const void *p, Ctx *cx, int id) { std::lock_guard<std::mutex> _(mx); live.insert(p); ever[p] = {cx, id}; }
+    void del(const void *p) { std::lock_guard<std::mutex> _(mx); live.erase(p); }
+    // returns true when p is a live instance; otherwise reports the call on the dead one
+    bool check(const void *p) {
+        std::pair<Ctx *, int> who{nullptr, -1};
+        {
+            std::lock_guard<std::mutex> _(mx);
+            if (live.count(p)) return true;
+            auto it = ever.find(p);
+            if (it != ever.end()) who = it->second;
+        }
+        if (who.first) who.first->ev(who.second, "C" + std::to_string(who.second) + ":deadcall");
+        return false;
+    }
+    void clear() { std::lock_guard<std::mutex> _(mx); live.clear(); ever.clear(); }
+};
+static fn_registry g_fns;
+
 struct cb_fn {
     std::shared_ptr<cb_shared> s;
     explicit cb_fn(std::shared_ptr<cb_shared> x) : s(std::move(x)) { inc(); }
     cb_fn(const cb_fn &o) : s(o.s) { inc(); }
     cb_fn(cb_fn &&o) : s(o.s) { inc(); }
     ~cb_fn() {
+        g_fns.del(this);
         --s->cx->live_cbs;
         if (--s->live == 0) s->cx->ev(s->id, "C" + std::to_string(s->id) + ":free");
     }
-    void inc() { ++s->live; ++s->cx->live_cbs; }
+    void inc() { ++s->live; ++s->cx->live_cbs; g_fns.add(this, s->cx, s->id); }
     bool answer() const {
         if (s->left > 0) { --s->left; return true; }
         return false;
     }
     bool operator()(int &v) const {
+        if (!g_fns.check(this)) return false;
         s->cx->ev(s->id, "C" + std::to_string(s->id) + ":v" + std::to_string(v));
         return answer();
     }
     bool operator()() const {
+        if (!g_fns.check(this)) return false;
         s->cx->ev(s->id, "C" + std::to_string(s->id) + ":v0");
         return answer();
     }
@@ -183,6 +213,7 @@ struct Case {
     bool hook_pending;
 
     explicit Case(bool hook) : hook_pending(hook) {
+        g_fns.clear();
         if (hook) return;       // the signal is created by the first listener's hook_up()
         sig_t s;
         em = s.get_emitter();
@@ -387,7 +418,7 @@ struct Case {
                 }
                 for (auto &t : thr) t.join();
                 head = "tlisten L" + std::to_string(first) + "..L" + std::to_string(first + (int)n - 1);
-            } else if (w[0] == "connect" && w.size() == 2) {
+            } else if ((w[0] == "connect" || w[0] == "connectl") && w.size() == 2) {
                 sig_t *s = nullptr;
                 std::optional<sig_t> tmp;
                 for (auto &h : handles) {
@@ -403,8 +434,15 @@ struct Case {
                 } else {
                     int id = next_id++;
                     auto sh = std::make_shared<cb_shared>(cb_shared{&cx, id, atoi(w[1].c_str())});
-                    s->connect(cb_fn(sh));
-                    head = "connect C" + std::to_string(id);
+                    if (w[0] == "connectl") {
+                        // connect with an lvalue callable that the caller destroys right away (before the next collector
+                        // call): the connection has to own its callback
+                        auto fn = std::make_unique<cb_fn>(sh);
+                        s->connect(*fn);
+                    } else {
+                        s->connect(cb_fn(sh));
+                    }
+                    head = w[0] + " C" + std::to_string(id);
                 }
             } else if (w[0] == "emit" && w.size() >= 3) {
                 auto col = any_collector();
